@@ -301,10 +301,42 @@ fn run_case(ctx: &mut Ctx, c: &Value) -> R<()> {
             if items.is_empty() {
                 return Ok(()); // the builder documents that an empty ROA is refused (not a conforming input)
             }
+            // the builder's other feeds must give the same object: typed pushes, per-family slices, with_addresses
+            let typed: Vec<(bool, rpki::repository::roa::RoaIpAddress)> = items.iter().map(|i| {
+                let (a, l, m) = roa_prefix(*i);
+                (a.is_ipv4(), rpki::repository::roa::RoaIpAddress::new_addr(a, l, m))
+            }).collect();
+            let v4s: Vec<_> = typed.iter().filter(|x| x.0).map(|x| x.1).collect();
+            let v6s: Vec<_> = typed.iter().filter(|x| !x.0).map(|x| x.1).collect();
+            let mut alt: Vec<(&str, RoaBuilder)> = Vec::new();
+            let mut b1 = RoaBuilder::new(Asn::from_u32(1));
+            b1.set_as_id(Asn::from_u32(64496));
+            for (v4, x) in &typed { if *v4 { b1.push_v4(*x) } else { b1.push_v6(*x) } }
+            alt.push(("push_v4/push_v6", b1));
+            let mut b2 = RoaBuilder::new(Asn::from_u32(64496));
+            b2.extend_v4_from_slice(&v4s);
+            b2.extend_v6_from_slice(&v6s);
+            alt.push(("extend_from_slice", b2));
+            let mut b3 = RoaBuilder::new(Asn::from_u32(64496));
+            for i in &items {
+                let (a, l, m) = roa_prefix(*i);
+                match a { std::net::IpAddr::V4(x) => b3.push_v4_addr(x, l, m), std::net::IpAddr::V6(x) => b3.push_v6_addr(x, l, m) }
+            }
+            alt.push(("push_v4_addr/push_v6_addr", b3));
             let mut b = RoaBuilder::new(Asn::from_u32(64496));
             for i in &items {
                 let (a, l, m) = roa_prefix(*i);
                 b.push_addr(a, l, m);
+            }
+            let main_content = b.to_attestation().encode_ref().to_captured(Mode::Der).into_bytes();
+            for (route, x) in alt {
+                if x.as_id() != Asn::from_u32(64496) {
+                    return e("roa:build:as_id", format!("{route}: as_id() = {}", x.as_id()));
+                }
+                let other = x.to_attestation().encode_ref().to_captured(Mode::Der).into_bytes();
+                if other != main_content {
+                    return e("roa:build:feeds", format!("the builder fed through {route} gives a different attestation than push_addr"));
+                }
             }
             let att = b.to_attestation();
             let before: Vec<_> = att.iter().map(|x| (x.address(), x.address_length(), x.max_length())).collect();
@@ -341,8 +373,27 @@ fn run_case(ctx: &mut Ctx, c: &Value) -> R<()> {
                 return Ok(()); // an ASPA needs at least one provider
             }
             let provs: Vec<Asn> = items.iter().map(|i| Asn::from_u32([65001u32, 4_200_000_000, 3, 0][*i as usize - 1])).collect();
-            let b = AspaBuilder::new(Asn::from_u32(64496), provs.clone()).map_err(|_| ("aspa:build".to_string(), "duplicate".to_string()))?;
-            let built = b.finalize(sob(), &pki.signer, &k0).map_err(|x| ("aspa:build".to_string(), x.to_string()))?;
+            // two ways to the same builder: all providers at once, or an empty builder fed one provider at a time in the given order
+            // (a repeated provider is refused and the builder stays as it was)
+            let mut fed = AspaBuilder::empty(Asn::from_u32(64496));
+            let mut seen: Vec<Asn> = Vec::new();
+            for p in &provs {
+                let r = fed.add_provider(*p);
+                if r.is_ok() == seen.contains(p) {
+                    return e("aspa:build:add_provider", format!("add_provider({p}) after {seen:?} returned {}", if r.is_ok() { "Ok" } else { "Err" }));
+                }
+                seen.push(*p);
+            }
+            let mut dedup = provs.clone();
+            dedup.sort();
+            dedup.dedup();
+            let at_once = AspaBuilder::new(Asn::from_u32(64496), dedup.clone()).map_err(|_| ("aspa:build".to_string(), "duplicate".to_string()))?;
+            if AspaBuilder::new(Asn::from_u32(64496), provs.clone()).is_ok() != (dedup.len() == provs.len()) {
+                return e("aspa:build:new", format!("AspaBuilder::new({provs:?}): duplicate detection wrong"));
+            }
+            for (route, b) in [("", at_once), (":add_provider", fed)] {
+            let kind = &format!("{kind}{route}");
+            let built = b.finalize(sob(), &pki.signer, &k0).map_err(|x| (format!("aspa:build{route}"), x.to_string()))?;
             let bytes = built.to_captured().into_bytes();
             let twin = Aspa::decode(bytes.clone(), true).or_else(|x| e("aspa:decode", x))?;
             same!(kind, "reencode", bytes, twin.to_captured().into_bytes());
@@ -364,6 +415,7 @@ fn run_case(ctx: &mut Ctx, c: &Value) -> R<()> {
             // process() checks against the wall clock: only when the validity window contains it
             if c["times"] == "far" {
                 twin.process(&issuer, true, |_| Ok(())).map(|_| ()).or_else(|x| e("aspa:validate", x))?;
+            }
             }
         }
         "csr" => {
